@@ -110,20 +110,25 @@ func H_C17_Node(v *verifrt.T) {
 	path := filepath.Join(root, name)
 	v.PutVersionFile(path, "v1")
 	minAge := v.Duration("min-age", 0, 48*time.Hour)
-	age := v.Duration("age", 0, 96*time.Hour)
+	// the scan started `walk` ago (a large tree takes a while); ages are
+	// measured at the START of the scan, so that one scan sees one instant
+	walk := v.Duration("scan-running-for", 0, time.Hour)
+	ageNow := v.Duration("age", 0, 96*time.Hour)
+	v.Assume(ageNow >= walk)
+	age := ageNow - walk
 	v.Assume(verifrt.Or(age+time.Minute <= minAge, age >= minAge+time.Minute))
-	v.SetAge(path, age)
+	v.SetAge(path, ageNow)
 	allow := v.Bool("caller-allows")
 	dir := &Local{Root: root, MinAge: minAge}
 	dir.AddStandardIgnore()
-	dir.scanTimeStart = time.Now()
+	dir.scanTimeStart = v.Now().Add(-walk)
 	dir.shouldAllow = func(sts.File) bool { return allow }
 	info, err := os.Lstat(path)
 	v.Assert(err == nil, "set-up")
 	v.Assert(dir.handleNode(path, info, nil) == nil, "no error")
 	eligible := name == "a.dat" || name == "d/b.dat"
 	want := eligible && age >= minAge && allow
-	v.Assert((len(dir.scanFiles) == 1) == want, "C17.O1 a file is queued iff it is not hidden / ignored, at least MinAge old and allowed")
+	v.Assert((len(dir.scanFiles) == 1) == want, "C17.O1 a file is queued iff it is not hidden / ignored, at least MinAge old when the scan started, and allowed")
 	if len(dir.scanFiles) == 1 {
 		v.Assert(dir.scanFiles[0].GetName() == name, "C17 the queued file carries its path relative to the outgoing directory")
 		v.Reach("queued")
